@@ -31,6 +31,23 @@ class MockKmerFinder:
         return True
 
 
+class ShortReadsPassKmerFinder:
+    """
+    Wrap a k-mer finder for adapters that can also match when the read lies
+    within the adapter ('anywhere' adapters). No k-mer search set describes such
+    an occurrence, so reads shorter than the adapter always need to be aligned.
+    """
+
+    def __init__(self, kmer_finder, adapter_length: int):
+        self._kmer_finder = kmer_finder
+        self._adapter_length = adapter_length
+
+    def kmers_present(self, sequence: str):
+        if len(sequence) < self._adapter_length:
+            return True
+        return self._kmer_finder.kmers_present(sequence)
+
+
 class InvalidCharacter(Exception):
     pass
 
@@ -619,7 +636,7 @@ class SingleAdapter(Adapter, ABC):
         back_adapter: bool,
         front_adapter: bool,
         internal: bool = True,
-    ) -> Union[KmerFinder, MockKmerFinder]:
+    ) -> Union[KmerFinder, MockKmerFinder, ShortReadsPassKmerFinder]:
         positions_and_kmers = create_positions_and_kmers(
             sequence,
             self.min_overlap,
@@ -631,12 +648,16 @@ class SingleAdapter(Adapter, ABC):
         if self._debug:
             print(kmer_probability_analysis(positions_and_kmers))
         try:
-            return KmerFinder(
+            kmer_finder = KmerFinder(
                 positions_and_kmers, self.adapter_wildcards, self.read_wildcards
             )
         except ValueError:
             # Kmers too long.
             return MockKmerFinder()
+        if back_adapter and front_adapter:
+            # Both ends of the adapter may be skipped
+            return ShortReadsPassKmerFinder(kmer_finder, len(sequence))
+        return kmer_finder
 
     def __repr__(self):
         return (
